@@ -2,7 +2,11 @@
    Only statements closed by [exact]; the proofs are in C03/Arith.v, C03/Proofs.v, C03/Theorems.v.
    [T] is the table set regenerated from the source on every run (Gen/Constructors.v, Gen/AddTo.v,
    Gen/AnyTable.v); [construct], [addto], [equals], [any_lookup] are the semantics of those tables
-   (C03/Lang.v); [expected], [spec_any], [payload_self] are the specification (C03/Model.v). *)
+   (C03/Lang.v); [expected], [spec_any], [payload_self] are the specification (C03/Model.v).
+   Ambient state: [construct] and [addto] take the identity of the location the process-global
+   variable time.Local points to WHILE THEY RUN ([la]: while a Field is built, [lb]: while it is
+   encoded).  The two moments are different moments and time.Local is assignable, so the theorems
+   quantify over [la] and [lb] independently. *)
 From Coq Require Import List ZArith Bool String.
 From Coq.Strings Require Import Byte.
 Import ListNotations.
@@ -27,9 +31,9 @@ Theorem C03_roundtrip_ok_sound : roundtrip_ok = true ->
   forall c n ft ie m ue, In c (t_ctors T) ->
     c_param c = TNum n -> c_body c = BLit ft KKey (Some ie) None None ->
     assoc ft (t_arms T) = Some (ACall m (Some ue)) ->
-    forall stack z, in_num n z ->
-    exists iz, eval (env0 (VI z) stack) ie = Some (VI iz) /\ in_numb NInt64 iz = true /\
-               forall k s x, eval (fenv {| f_ty := 0; f_key := k; f_int := iz; f_str := s; f_ifc := x |} VNil) ue = Some (VI z).
+    forall la lb stack z, in_num n z ->
+    exists iz, eval (env0 la (VI z) stack) ie = Some (VI iz) /\ in_numb NInt64 iz = true /\
+               forall k s x, eval (fenv lb {| f_ty := 0; f_key := k; f_int := iz; f_str := s; f_ifc := x |} VNil) ue = Some (VI z).
 Proof. exact roundtrip_ok_sound. Qed.
 Print Assumptions C03_roundtrip_ok_sound.
 
@@ -39,14 +43,33 @@ Print Assumptions C03_roundtrip_ok_sound.
    nil/empty/non-empty slices, nil errors, arbitrary user payloads: the Field is built, AddTo does
    not panic, and the encoder receives exactly the specified delivery of that value: the value
    itself under the method class of its type; a nil pointer as an explicit null; a nil error as
-   nothing; a slice as the array of its elements in order (nil errors skipped). *)
+   nothing; a slice as the array of its elements in order (nil errors skipped) -- and this for EVERY
+   pair of ambient states [la] (time.Local while the Field is built) and [lb] (time.Local while it
+   is encoded): what the encoder receives is a function of the original value alone ([expected]
+   of a non-Dict constructor does not look at [lb]). *)
 Theorem C03_roundtrip : forall c, In c (t_ctors T) -> is_dict c = false ->
-  forall stack k v, in_typeb (c_param c) v = true ->
-  exists f cs, construct T ctor_fuel stack (c_name c) k v = Some f /\
-               addto T (addto_fuel v) f = Some cs /\
-               expected stack (c_name c) (c_param c) k v = Some (norm_calls cs).
+  forall la lb stack k v, in_typeb (c_param c) v = true ->
+  exists f cs, construct T ctor_fuel la stack (c_name c) k v = Some f /\
+               addto T (addto_fuel v) lb f = Some cs /\
+               expected lb stack (c_name c) (c_param c) k v = Some (norm_calls cs).
 Proof. exact roundtrip_thm. Qed.
 Print Assumptions C03_roundtrip.
+
+(* [expected] of a constructor other than Dict ignores the ambient state altogether *)
+Theorem C03_expected_ambient_free : forall c, is_dict c = false ->
+  forall lb lb' stack k v, expected lb stack (c_name c) (c_param c) k v = expected lb' stack (c_name c) (c_param c) k v.
+Proof. exact expected_amb_free. Qed.
+Print Assumptions C03_expected_ambient_free.
+
+(* A constructor reads nothing from the process: for every constructor (Dict included) and every
+   value, the Field is the same whatever time.Local points to while the constructor runs.  (A
+   constructor that records "this time is in the local zone" instead of the zone itself, leaving
+   AddTo to look the zone up again later, is refuted here and in C03_roundtrip.) *)
+Theorem C03_construct_ambient_free : forall c, In c (t_ctors T) ->
+  forall la la' stack k v, in_typeb (c_param c) v = true ->
+  construct T ctor_fuel la stack (c_name c) k v = construct T ctor_fuel la' stack (c_name c) k v.
+Proof. exact construct_amb. Qed.
+Print Assumptions C03_construct_ambient_free.
 
 (* ObjectValues (the generic constructor whose marshal method is on *T): for EVERY slice -- any
    identity (aliasing windows into a larger array included), any length, any elements -- the array
@@ -54,26 +77,29 @@ Print Assumptions C03_roundtrip.
    the slice with identity a), never the address of a copy ([VPtr y], any y): what an encoder that
    keeps the marshaler sees later, and what a marshal method that updates its receiver updates, is
    the caller's element.  (C03_roundtrip states the same through [expected]; this is the direct form.) *)
-Theorem C03_object_values_identity : forall stack k a l,
-  exists f, construct T ctor_fuel stack ($"ObjectValues") k (VSlice a l) = Some f /\
-            addto T (addto_fuel (VSlice a l)) f = Some [(($"AddArray"), k, VCalls (refs_from ($"AppendObject") a 0 l))].
+Theorem C03_object_values_identity : forall la lb stack k a l,
+  exists f, construct T ctor_fuel la stack ($"ObjectValues") k (VSlice a l) = Some f /\
+            addto T (addto_fuel (VSlice a l)) lb f = Some [(($"AddArray"), k, VCalls (refs_from ($"AppendObject") a 0 l))].
 Proof. exact object_values_thm. Qed.
 Print Assumptions C03_object_values_identity.
 
 (* Dict / dictField: an object holding, in order, what each member adds; panics iff a member does *)
-Theorem C03_dict : forall nm, nm = $"Dict" \/ nm = $"dictField" -> forall stack k a l,
-  construct T ctor_fuel stack nm k (VSlice a l) = Some (dict_field k (VSlice a l)) /\
-  option_map norm_calls (addto T (addto_fuel (VSlice a l)) (dict_field k (VSlice a l))) = exp_dict k (VSlice a l).
-Proof. intros nm H stack k a l. exact (conj (dict_construct nm H stack k (VSlice a l)) (dict_addto k a l)). Qed.
+Theorem C03_dict : forall nm, nm = $"Dict" \/ nm = $"dictField" -> forall la lb stack k a l,
+  construct T ctor_fuel la stack nm k (VSlice a l) = Some (dict_field k (VSlice a l)) /\
+  option_map norm_calls (addto T (addto_fuel (VSlice a l)) lb (dict_field k (VSlice a l))) = exp_dict lb k (VSlice a l).
+Proof. intros nm H la lb stack k a l. exact (conj (dict_construct nm H la stack k (VSlice a l)) (dict_addto lb k a l)). Qed.
 Print Assumptions C03_dict.
 
 (* Time: for EVERY instant (unbounded) and location the encoder receives the same instant in the
-   same location; instants representable as int64 nanoseconds -- MinInt64 and MaxInt64 included --
-   travel as (UnixNano, Location), all others as the time.Time itself. *)
-Theorem C03_time : forall stack k t,
-  match construct T ctor_fuel stack ($"Time") k (VTime t) with
+   same location -- no time-zone change --, whatever time.Local points to when the Field is built
+   ([la]) and when it is encoded ([lb]), the value's own location being the then-local one or not;
+   instants representable as int64 nanoseconds -- MinInt64 and MaxInt64 included -- travel as
+   (UnixNano, Location), the location ALWAYS being carried in the Field; all others as the time.Time
+   itself. *)
+Theorem C03_time : forall la lb stack k t,
+  match construct T ctor_fuel la stack ($"Time") k (VTime t) with
   | Some f =>
-      addto T 2 f = Some [(($"AddTime"), k, VTime t)] /\
+      addto T 2 lb f = Some [(($"AddTime"), k, VTime t)] /\
       (min_nano <= tinst t <= max_nano ->
          f = {| f_ty := 16; f_key := k; f_int := tinst t; f_str := []; f_ifc := VLoc (tloc t) |}) /\
       (~ (min_nano <= tinst t <= max_nano) ->
@@ -102,35 +128,36 @@ Theorem C03_any_order :
 Proof. exact (conj any_iface_order any_no_shadow). Qed.
 Print Assumptions C03_any_order.
 
-(* Fields built from the same input are the same Field and compare equal *)
-Theorem C03_equal_inputs : forall stack c k v f g,
-  built stack c k v f -> built stack c k v g ->
+(* Fields built from the same input are the same Field and compare equal -- also when time.Local
+   was re-pointed between the two constructor calls ([la] / [la']) *)
+Theorem C03_equal_inputs : forall la la' stack c k v f g,
+  built la stack c k v f -> built la' stack c k v g ->
   f = g /\ (payload_self (c_param c) v = true -> equals T f g = Some true).
 Proof. exact equal_inputs_thm. Qed.
 Print Assumptions C03_equal_inputs.
 
 (* Field.Equals never panics on Fields built by the constructors (any two constructors, any values) *)
-Theorem C03_equals_total : forall stack c1 k1 v1 f c2 k2 v2 g,
-  built stack c1 k1 v1 f -> built stack c2 k2 v2 g -> equals T f g <> None.
+Theorem C03_equals_total : forall la1 la2 stack c1 k1 v1 f c2 k2 v2 g,
+  built la1 stack c1 k1 v1 f -> built la2 stack c2 k2 v2 g -> equals T f g <> None.
 Proof. exact equals_total_thm. Qed.
 Print Assumptions C03_equals_total.
 
-Theorem C03_equals_sym : forall stack c1 k1 v1 f c2 k2 v2 g,
-  built stack c1 k1 v1 f -> built stack c2 k2 v2 g -> equals T f g = equals T g f.
+Theorem C03_equals_sym : forall la1 la2 stack c1 k1 v1 f c2 k2 v2 g,
+  built la1 stack c1 k1 v1 f -> built la2 stack c2 k2 v2 g -> equals T f g = equals T g f.
 Proof. exact equals_sym_thm. Qed.
 Print Assumptions C03_equals_sym.
 
 (* PARTIAL: reflexive whenever the payloads that Equals compares with reflect.DeepEqual equal
    themselves (guard [payload_self]: no NaN / func inside a value-kind user payload).  Outside the
    guard Equals is not reflexive: known finding "equals-deepequal-nonreflexive". *)
-Theorem C03_equals_refl_partial : forall stack c k v f,
-  built stack c k v f -> payload_self (c_param c) v = true -> equals T f f = Some true.
+Theorem C03_equals_refl_partial : forall la stack c k v f,
+  built la stack c k v f -> payload_self (c_param c) v = true -> equals T f f = Some true.
 Proof. exact equals_refl_thm. Qed.
 Print Assumptions C03_equals_refl_partial.
 
 (* the guard cannot be dropped: Reflect("k", NaN) *)
 Example C03_equals_refl_guard_needed :
-  exists f, construct T ctor_fuel [] ($"Reflect") [x6b] (VF64 nan64) = Some f /\ equals T f f = Some false.
+  exists f, construct T ctor_fuel loc_local [] ($"Reflect") [x6b] (VF64 nan64) = Some f /\ equals T f f = Some false.
 Proof. eexists. split. { vm_compute. reflexivity. } vm_compute. reflexivity. Qed.
 
 (* The ORIGINAL Equals (before the two fix: commits), kept as documentation of the defects:
@@ -145,34 +172,53 @@ Print Assumptions C03_equals_refl_orig_refuted.
 
 (* non-vacuity *)
 Example C03_example_int32_min :
-  option_map snd (deliver [] ($"Int32") [x6b] (VI (-2147483648))) = Some [(($"AddInt32"), [x6b], VI (-2147483648))].
+  option_map snd (deliver 1 1 [] ($"Int32") [x6b] (VI (-2147483648))) = Some [(($"AddInt32"), [x6b], VI (-2147483648))].
 Proof. vm_compute. reflexivity. Qed.
 Example C03_example_uint64_max :
-  option_map snd (deliver [] ($"Uint64") [x6b] (VI 18446744073709551615)) = Some [(($"AddUint64"), [x6b], VI 18446744073709551615)].
+  option_map snd (deliver 1 1 [] ($"Uint64") [x6b] (VI 18446744073709551615)) = Some [(($"AddUint64"), [x6b], VI 18446744073709551615)].
 Proof. vm_compute. reflexivity. Qed.
 Example C03_example_float_nan_payload :
-  option_map snd (deliver [] ($"Float64") [x6b] (VF64 0x7FF8DEADBEEF0001)) = Some [(($"AddFloat64"), [x6b], VF64 0x7FF8DEADBEEF0001)].
+  option_map snd (deliver 1 1 [] ($"Float64") [x6b] (VF64 0x7FF8DEADBEEF0001)) = Some [(($"AddFloat64"), [x6b], VF64 0x7FF8DEADBEEF0001)].
 Proof. vm_compute. reflexivity. Qed.
 Example C03_example_nil_pointer :
-  option_map snd (deliver [] ($"Int8p") [x6b] VNil) = Some [(($"AddReflected"), [x6b], VNil)].
+  option_map snd (deliver 1 1 [] ($"Int8p") [x6b] VNil) = Some [(($"AddReflected"), [x6b], VNil)].
 Proof. vm_compute. reflexivity. Qed.
 (* two elements with the same content are still delivered as two different addresses *)
 Example C03_example_object_values_addresses :
   let o := VOpq {| oty := 5; oaddr := 0; ocontent := 2; ocmp := true; oself := true; ostr := []; oerr := [] |} in
-  option_map snd (deliver [] ($"ObjectValues") [x6b] (VSlice 7 [o; o])) =
+  option_map snd (deliver 1 1 [] ($"ObjectValues") [x6b] (VSlice 7 [o; o])) =
     Some [(($"AddArray"), [x6b], VCalls [(($"AppendObject"), [], VRef 7 0 o); (($"AppendObject"), [], VRef 7 1 o)])].
 Proof. vm_compute. reflexivity. Qed.
 Example C03_example_time_boundaries :
-  option_map (fun r => f_ty (fst r)) (deliver [] ($"Time") [] (VTime {| tinst := max_nano; tloc := 3 |})) = Some 16 /\
-  option_map (fun r => f_ty (fst r)) (deliver [] ($"Time") [] (VTime {| tinst := max_nano + 1; tloc := 3 |})) = Some 17 /\
-  option_map (fun r => f_ty (fst r)) (deliver [] ($"Time") [] (VTime {| tinst := min_nano; tloc := 0 |})) = Some 16 /\
-  option_map (fun r => f_ty (fst r)) (deliver [] ($"Time") [] (VTime {| tinst := min_nano - 1; tloc := 0 |})) = Some 17.
+  option_map (fun r => f_ty (fst r)) (deliver 1 1 [] ($"Time") [] (VTime {| tinst := max_nano; tloc := 3 |})) = Some 16 /\
+  option_map (fun r => f_ty (fst r)) (deliver 1 1 [] ($"Time") [] (VTime {| tinst := max_nano + 1; tloc := 3 |})) = Some 17 /\
+  option_map (fun r => f_ty (fst r)) (deliver 1 1 [] ($"Time") [] (VTime {| tinst := min_nano; tloc := 0 |})) = Some 16 /\
+  option_map (fun r => f_ty (fst r)) (deliver 1 1 [] ($"Time") [] (VTime {| tinst := min_nano - 1; tloc := 0 |})) = Some 17.
 Proof. vm_compute. repeat split; reflexivity. Qed.
 Example C03_example_any_duration_is_not_a_stringer_case :
   any_lookup (t_any T) (TNum NDuration) [IStringer] = $"Duration".
 Proof. vm_compute. reflexivity. Qed.
 Example C03_example_wf :
-  wf (SL [SZ 0; SB ($"Int32"); SB [x6b]; SL [SZ 0; SZ (-7)]; SB []]) = true.
+  wf (SL [SZ 0; SB ($"Int32"); SB [x6b]; SL [SZ 0; SZ (-7)]; SB []; SL [SZ 1; SZ 1]]) = true.
+Proof. vm_compute. reflexivity. Qed.
+(* the ambient state is not decoration.  A local time (location 7 = what time.Local points to while
+   the Field is built) is encoded after time.Local has been re-pointed to location 0 (UTC): the
+   encoder still receives it in location 7, because the Field carries the location ... *)
+Example C03_example_time_zone_survives_relocation :
+  deliver 7 0 [] ($"Time") [x6b] (VTime {| tinst := 1700000000123456789; tloc := 7 |}) =
+    Some ({| f_ty := 16; f_key := [x6b]; f_int := 1700000000123456789; f_str := []; f_ifc := VLoc 7 |},
+          [(($"AddTime"), [x6b], VTime {| tinst := 1700000000123456789; tloc := 7 |})]).
+Proof. vm_compute. reflexivity. Qed.
+(* ... whereas a Field that does NOT carry it (Interface nil: no constructor builds one, C03_time)
+   is delivered in whatever zone is local at the moment of encoding: the model can tell the two
+   apart, so C03_roundtrip / C03_time / C03_construct_ambient_free are not vacuous in [la], [lb] *)
+Example C03_example_ambient_matters :
+  let f := {| f_ty := 16; f_key := [x6b]; f_int := 5; f_str := []; f_ifc := VNil |} in
+  addto T 2 7 f = Some [(($"AddTime"), [x6b], VTime {| tinst := 5; tloc := 7 |})] /\
+  addto T 2 0 f = Some [(($"AddTime"), [x6b], VTime {| tinst := 5; tloc := 0 |})].
+Proof. vm_compute. split; reflexivity. Qed.
+Example C03_example_wf_ambient :
+  wf (SL [SZ 0; SB ($"Time"); SB [x6b]; SL [SZ 8; SZ 1700000000123456789; SZ 7]; SB []; SL [SZ 7; SZ 0]]) = true.
 Proof. vm_compute. reflexivity. Qed.
 
 (* wire-level link: on every well-formed case the oracle the driver runs accepts what the model
